@@ -278,6 +278,64 @@ def check_routes(ctx, rng, n_orders, n_cultures):
                     V(ctx, f"standard-letter-parse:{cls.__name__}:{L}", f"{cls.__name__} standard pattern {L!r} in culture {c.name!r} does not read the ISO text {want!r} back", case)
     finally:
         CultureInfo.current_culture = saved
+    # the shared built-in pattern objects under several threads, and right after a call that raised: still the stdlib's text for that value
+    import threading
+    P = pats()
+    def expect(kind, o_, sec_, us_):
+        d_ = dt.date.fromordinal(o_); t_ = dt.time(sec_ // 3600, sec_ // 60 % 60, sec_ % 60, us_)
+        frac = ("%06d" % us_).rstrip("0")
+        tt = t_.strftime("%H:%M:%S") + ("." + frac if frac else "")
+        return {"date": d_.isoformat(), "t_ext": tt, "ldt_extended_iso": d_.isoformat() + "T" + tt, "inst_extended_iso": d_.isoformat() + "T" + tt + "Z", "inst_general": d_.isoformat() + "T" + t_.strftime("%H:%M:%S") + "Z"}[kind]
+    def value(kind, o_, sec_, us_):
+        ld = LocalDate.from_date(dt.date.fromordinal(o_)); lt = LocalTime.from_nanoseconds_since_midnight(sec_ * 10**9 + us_ * 1000)
+        return {"date": ld, "t_ext": lt, "ldt_extended_iso": ld.at(lt), "inst_extended_iso": Instant.from_utc(ld.year, ld.month, ld.day, lt.hour, lt.minute, lt.second).plus_nanoseconds(us_ * 1000),
+                "inst_general": Instant.from_utc(ld.year, ld.month, ld.day, lt.hour, lt.minute, lt.second)}[kind]
+    kinds = ["date", "t_ext", "ldt_extended_iso", "inst_extended_iso", "inst_general"]
+    for kind in kinds:      # a call that raises must not disturb the next one
+        for wrong in (object(), None, "text", LocalDate(1999, 12, 31), 5):
+            try:
+                P[kind].format(wrong)
+            except Exception as e:  # noqa: BLE001
+                ctx.exc(e)
+            o_, sec_, us_ = rng.randint(1, MAXORD), rng.randrange(86400), rng.choice([0, 250000, rng.randrange(10**6)])
+            ctx.ev(); ctx.count("format_after_raise")
+            try:
+                got = P[kind].format(value(kind, o_, sec_, us_))
+            except Exception as e:  # noqa: BLE001
+                got = repr(e)
+            if got != expect(kind, o_, sec_, us_):
+                V(ctx, f"format-after-failed-call:{kind}", f"after a format() call on the same built-in pattern had raised (argument {type(wrong).__name__}), {kind} writes {got!r} for a value whose ISO text is {expect(kind, o_, sec_, us_)!r}", {"kind": "route", "pattern": kind}, got, expect(kind, o_, sec_, us_))
+    bad = []; done = [0]; few_days = [1]
+    def worker(seed, only=None):
+        import random
+        r_ = random.Random(seed)
+        for _ in range(300 if only is None else 500):
+            kind = only or r_.choice(kinds)
+            # few keys, many threads: when one pattern object is hammered, the values fall on a handful of days / seconds shared by all threads
+            o_ = r_.randint(1, MAXORD) if only is None else r_.choice(few_days)
+            sec_, us_ = r_.randrange(86400) if only is None else r_.choice([0, 1, 86399, 43200]), r_.choice([0, 250000, r_.randrange(10**6)])
+            try:
+                got = P[kind].format(value(kind, o_, sec_, us_))
+            except Exception as e:  # noqa: BLE001
+                got = repr(e)
+            done[0] += 1
+            if got != expect(kind, o_, sec_, us_):
+                bad.append((kind, got, expect(kind, o_, sec_, us_))); return
+    old_si = sys.getswitchinterval()
+    try:
+        sys.setswitchinterval(1e-6)
+        for trial in range(6 if ctx.tier == "quick" else 30):
+            few_days = [rng.randint(1, MAXORD) for _ in range(3)] + [1, MAXORD]
+            only = [None, "inst_extended_iso", "ldt_extended_iso", "inst_general", "t_ext", "date"][trial % 6]     # mixed, then every pattern object hammered on its own
+            ths = [threading.Thread(target=worker, args=(rng.randrange(10**9), only)) for _ in range(8)]
+            [t.start() for t in ths]; [t.join(600) for t in ths]
+            ctx.ev(); ctx.key(("threads", trial))
+            if bad: break
+    finally:
+        sys.setswitchinterval(old_si)
+    ctx.count("threaded_formats", done[0])
+    if bad:
+        V(ctx, f"concurrent-format-differs:{bad[0][0]}", f"with 8 threads formatting through the shared built-in pattern objects, {bad[0][0]} wrote {bad[0][1]!r} for a value whose ISO text is {bad[0][2]!r}", {"kind": "route", "pattern": bad[0][0]}, bad[0][1], bad[0][2])
     # first-use order, in fresh interpreters
     from vf.props import c17_child
     names = sorted(c17_child.accessors())
@@ -288,18 +346,20 @@ def check_routes(ctx, rng, n_orders, n_cultures):
         elif k == 1: order.sort(key=lambda s_: ("iso" in s_ or "'R'" in s_, s_))       # the ISO date pattern touched last
         else: rng.shuffle(order)
         try:
-            r = subprocess.run([sys.executable, "-m", "vf.props.c17_child", _json.dumps(order)], capture_output=True, text=True, timeout=600, env=dict(os.environ), cwd=os.path.dirname(os.path.dirname(os.path.dirname(os.path.abspath(__file__)))))
+            opt = ["-O"] if k % 2 == 1 else []          # every other fresh interpreter runs with assertions compiled out
+            r = subprocess.run([sys.executable, *opt, "-m", "vf.props.c17_child", _json.dumps(order)], capture_output=True, text=True, timeout=600, env=dict(os.environ), cwd=os.path.dirname(os.path.dirname(os.path.dirname(os.path.abspath(__file__)))))
             line = [ln for ln in r.stdout.splitlines() if ln.startswith("@@C17CHILD ")]
             out = _json.loads(line[-1][len("@@C17CHILD "):]) if line else None
         except subprocess.TimeoutExpired:
             out = None
         if out is None:
             ctx.inconc("first-use-order child produced no result"); continue
-        ctx.count("fresh_process_orders"); ctx.key(("first-use-order", k))
+        ctx.count("fresh_process_orders"); ctx.key(("first-use-order", k, bool(opt)))
+        if bool(opt) != bool((out.get("__optimize__") or [0, 0])[1]): ctx.note("python -O child did not run optimised")
         for nm in names:
             ctx.ev()
             if out.get(nm) != ref_out[nm]:
-                V(ctx, "first-use-order", f"in a fresh interpreter that touches the built-in patterns in the order {order[:4]}..., {nm} gives {out.get(nm)}; otherwise {ref_out[nm]}", {"kind": "route", "accessor": nm, "order": order}, out.get(nm), ref_out[nm])
+                V(ctx, "first-use-order", f"in a fresh interpreter ({'python -O, ' if opt else ''}built-in patterns first touched in the order {order[:4]}...), {nm} gives {out.get(nm)}; otherwise {ref_out[nm]}", {"kind": "route", "accessor": nm, "order": order}, out.get(nm), ref_out[nm])
                 break
 
 
